@@ -285,7 +285,9 @@ def run_one(seed: int, index: int, tier: str) -> dict:
                 sub = base / "tree" if inplace else base / f"t{k}"
                 bname = os.path.basename(n["file"])
                 v, out = judge(par, sub, ffiles, "main.fcp", ("names", bname, detail.get("type"), kind), logger_mode, path_style)
-                hist = prev[-2:] if inplace else []
+                # what a replay must re-create in the same directory and process: the fault-free tree the run started
+                # with, then the two configurations before this one
+                hist = ([prev[0]] + [h for h in prev[-2:] if h is not prev[0]]) if inplace else []
                 prev.append(ffiles)
                 res["evals"] += 1
                 faults[kind] += 1
